@@ -279,6 +279,10 @@ class C13(Property):
             d2 = d.copy()
             d2.volume = 2.5 * V_true
             ctx.require(abs(d2.volume - 2.5 * V_true) <= 1e-12 * V_true and np.array_equal(d2.amplitudes, d.amplitudes), "2d:volume-setter", f"set {2.5 * V_true}, read {d2.volume}")
+            # ... also when the droplet had no size before (radius exactly 0, amplitudes already set)
+            d0 = cls(pos.copy(), 0.0, spec["width"], amps.copy() if len(amps) % 2 else [float(a) for a in amps])
+            d0.volume = 1.7 * V_true
+            ctx.require(abs(d0.volume - 1.7 * V_true) <= 1e-12 * V_true and abs(d0.radius - R0 * math.sqrt(1.7)) <= 1e-12 * R0, "2d:volume-setter:from-zero-radius", f"a droplet of radius 0 given the volume {1.7 * V_true} reports {d0.volume} (radius {d0.radius})")
             # curvature to first order
             rr0, rr1, rr2 = series_2d_derivs(R0, amps, ph)
             k_true = (rr0**2 + 2 * rr1**2 - rr0 * rr2) / (rr0**2 + rr1**2) ** 1.5
